@@ -130,6 +130,8 @@ def moral_rules(rep, prog):
 
 
 def run(prog, rep, tier):
+    node_label_truthiness(rep, prog, [U + n_ for n_ in ['vstructures', 'moral_graph', 'is_clique', 'is_complete', 'degrees', 'induced_subgraph', 'only_directed', 'only_undirected', 'skeleton']])
+    isin_over_sets(rep, prog, [U + n_ for n_ in ['vstructures', 'moral_graph', 'is_clique', 'is_complete', 'degrees', 'induced_subgraph', 'only_directed', 'only_undirected', 'skeleton']])
     PW.rule_decompositions(prog, rep)
     PW.rule_counts(prog, rep)
     rep.require_count("PW.table", 8)
